@@ -419,5 +419,22 @@ def sweep_profile(tier):
     return profile(tier)
 
 
-SWEEP = (24, 300)
+def _corpus():
+    late = [{"proc": 0, "ops": [["sleep", LATE], ["observe"], ["notify_all"], ["sleep", 2000.0], ["notify_all"]]},
+            {"proc": 0, "ops": [["sleep", LATE + 1000.0], ["wait", None]]}]
+    out = []
+    for n_timed, n_untimed, nkind in ((3, 0, "notify_all"), (2, 1, "notify_all"), (2, 1, "notify"), (1, 1, "notify"), (2, 0, "notify")):
+        actors = [{"proc": 0, "ops": [["wait", 0.5], ["wait", 3.0]]}] + [{"proc": 0, "ops": [["wait", 0.5]]} for _ in range(n_timed - 1)]
+        actors += [{"proc": 0, "ops": [["wait", None]]} for _ in range(n_untimed)]
+        actors.append({"proc": 0, "ops": [["sleep", 0.3], [nkind]]})
+        out.append({"prim": "cond", "n": 1, "actors": actors + late, "schedule": {"kind": "pb", "preempt": []}})
+    ev = [{"proc": 0, "ops": [["ewait", None]]}, {"proc": 1, "ops": [["ewait", 0.5], ["is_set"]]},
+          {"proc": 0, "ops": [["sleep", 0.3], ["set"], ["clear"]]},
+          {"proc": 0, "ops": [["sleep", LATE], ["observe"], ["set"], ["sleep", 10.0], ["is_set"]]}]
+    out.append({"prim": "event", "n": 1, "actors": ev, "schedule": {"kind": "pb", "preempt": []}})
+    return out
+
+
+SWEEP_CORPUS = _corpus()
+SWEEP = (16, 300)
 install(globals(), ID, 6000, 80000)
